@@ -8,7 +8,7 @@ namespace Babylon.Exec
 open Babylon.Core
 
 /-- closing tactic for the place goals -/
-macro "p_close" : tactic => `(tactic| (
+macro "p_close_D" : tactic => `(tactic| (
   (try simp only [exec_proj, upd_same, Q.claim_fold, Q.bump_fold] at *)
   first
     | done
@@ -59,7 +59,7 @@ theorem Inv3.step_b3c (I : Inv1 c s) (J : Inv2 c s) (K : Inv3 c s) (h : StepCase
     rw [hidx] at hc1; rw [hfull] at hc2
     have hb2 : s.loc idx = .lq k0 i0 := b2 k0 i0 idx hc1 (by rw [hc2]; simp)
     clear hcell l4
-    cases ctx <;> simp only [hidx] at * <;> p_close
+    cases ctx <;> simp only [hidx] at * <;> p_close_D
   case wRecv i0 cl hpc hcell hfull =>
     have hc1 := Q.itemAt_eq _ _ _ hcell
     have hc2 := Q.stAt_eq _ _ _ hcell
@@ -68,15 +68,14 @@ theorem Inv3.step_b3c (I : Inv1 c s) (J : Inv2 c s) (K : Inv3 c s) (h : StepCase
     have hb1 : ∀ idx, cl.item = .task idx → s.loc idx = .gq i0 := by
       intro idx hx; rw [hx] at hc1; exact b1 i0 idx hc1 (by rw [hc2]; simp)
     clear hcell l4
-    cases hx : cl.item <;> simp only [hx] at * <;> p_close
+    cases hx : cl.item <;> simp only [hx] at * <;> p_close_D
   case gPublish p k hpc hfree hst =>
     have hc3 : p < s.g.cells.length := Q.stAt_some_lt _ _ _ hst
-    clear l4; p_close
+    clear l4; p_close_D
   case rLPub id0 cid p k0 hpc hown hfree hst =>
     have hc3 : p < (s.l k0).cells.length := Q.stAt_some_lt _ _ _ hst
-    clear l4; p_close
-  all_goals (clear l4; try p_close)
-  all_goals (trace_state; sorry)
+    clear l4; p_close_D
+  all_goals (clear l4; try p_close_D)
 
 set_option maxHeartbeats 4000000 in
 theorem Inv3.step_b3e (I : Inv1 c s) (J : Inv2 c s) (K : Inv3 c s) (h : StepCase c s t lb s') :
@@ -116,7 +115,7 @@ theorem Inv3.step_b3e (I : Inv1 c s) (J : Inv2 c s) (K : Inv3 c s) (h : StepCase
     rw [hidx] at hc1; rw [hfull] at hc2
     have hb2 : s.loc idx = .lq k0 i0 := b2 k0 i0 idx hc1 (by rw [hc2]; simp)
     clear hcell l4
-    cases ctx <;> simp only [hidx] at * <;> p_close
+    cases ctx <;> simp only [hidx] at * <;> p_close_D
   case wRecv i0 cl hpc hcell hfull =>
     have hc1 := Q.itemAt_eq _ _ _ hcell
     have hc2 := Q.stAt_eq _ _ _ hcell
@@ -125,15 +124,14 @@ theorem Inv3.step_b3e (I : Inv1 c s) (J : Inv2 c s) (K : Inv3 c s) (h : StepCase
     have hb1 : ∀ idx, cl.item = .task idx → s.loc idx = .gq i0 := by
       intro idx hx; rw [hx] at hc1; exact b1 i0 idx hc1 (by rw [hc2]; simp)
     clear hcell l4
-    cases hx : cl.item <;> simp only [hx] at * <;> p_close
+    cases hx : cl.item <;> simp only [hx] at * <;> p_close_D
   case gPublish p k hpc hfree hst =>
     have hc3 : p < s.g.cells.length := Q.stAt_some_lt _ _ _ hst
-    clear l4; p_close
+    clear l4; p_close_D
   case rLPub id0 cid p k0 hpc hown hfree hst =>
     have hc3 : p < (s.l k0).cells.length := Q.stAt_some_lt _ _ _ hst
-    clear l4; p_close
-  all_goals (clear l4; try p_close)
-  all_goals (trace_state; sorry)
+    clear l4; p_close_D
+  all_goals (clear l4; try p_close_D)
 
 end
 end Babylon.Exec
